@@ -347,6 +347,16 @@ func (g *Gen) twins(c *Case) (string, string) {
 		} else {
 			narrow = core + "{" + extra + "}"
 		}
+		if g.chance(0.08) {
+			// merging and propagation on one selector: a narrower twin of a selector that is
+			// itself joined one-to-one with another metric
+			other := "m"
+			if strings.HasPrefix(core, "m") || strings.Contains(core, `__name__="m"`) {
+				other = "n"
+			}
+			narrower := narrow[:len(narrow)-1] + "," + g.matcher() + "}"
+			return "sum(" + narrow + " + " + other + "{" + g.matcher() + "})", "sum(" + narrower + ")"
+		}
 		if g.chance(0.12) {
 			// a merged selector as the direct argument of a function
 			fn := g.pick("abs", "ceil", "floor", "sqrt", "exp")
